@@ -381,8 +381,20 @@ class UserFcn:
 
 
 def _sameArgument(x, y):
-    """Equality of two call arguments for caching; arguments that cannot be compared (e.g. dicts of arrays) differ."""
+    """Equality of two call arguments for caching: same type and equal content.
+
+    Arguments that cannot be compared (or a scalar record versus a record of one-element arrays) differ."""
+    if x is y:
+        return True
+    if type(x) is not type(y):
+        return False
     try:
+        if isinstance(x, dict):
+            return x.keys() == y.keys() and all(_sameArgument(x[k], y[k]) for k in x)
+        if isinstance(x, (list, tuple)):
+            return len(x) == len(y) and all(_sameArgument(xi, yi) for xi, yi in zip(x, y))
+        if isinstance(x, np.ndarray):
+            return x.shape == y.shape and bool(np.array_equal(x, y))
         return bool(np.array_equal(x, y))
     except (ValueError, TypeError):
         return False
